@@ -475,11 +475,17 @@ Definition acc_incoming (cx : ctx) (a : Z) (p : packet) (w : net) : net * list k
 Definition acc_cancel (a : Z) (w : net) : net * list kc := acc_abort_handlers a false w.
 
 (* tcp::acceptor::close(ec) *)
-Definition acc_close (cx : ctx) (a : Z) (w : net) : net * list kc :=
+Definition acc_close0 (cx : ctx) (a : Z) (w : net) : net * list kc :=
   let w := set_tcp w a (get_tcp w a <| a_limit := -1 |>) in
   let (w, c1) := acc_cancel a w in
   let (w, c2) := tcp_close cx a w in
   (w, c1 ++ c2).
+Definition acc_close (cx : ctx) (a : Z) (w : net) : net * list kc :=
+  let (w, c) := acc_close0 cx a w in
+  if d24_close_resets_backlog (cv cx) then
+    (* the connections still waiting to be accepted are reset *)
+    let (w, c3) := acc_check_queue cx a w in (w, c ++ c3)
+  else (w, c).
 
 (* ================= UDP ================= *)
 
@@ -509,6 +515,16 @@ Definition udp_bind (s : Z) (e : endpoint) (w : net) : Z * net :=
   else
     let '(err, bound, w) := bind_udp_reg w s (u_node u) e in
     if err =? EC_OK then (EC_OK, set_udp w s (get_udp w s <| u_bound := bound |>)) else (err, w).
+
+(* bind() as the user calls it: a socket that already has a name keeps it *)
+Definition udp_bind_user (v : variant) (s : Z) (e : endpoint) (w : net) : Z * net :=
+  let u := get_udp w s in
+  if d23_single_bind v && u_open u && Bool.eqb (negb (a_v6 (e_addr e))) (u_is_v4 u) && negb (ep_eqb (u_bound u) ep_none)
+  then (EC_INVALID_ARGUMENT, w) else udp_bind s e w.
+Definition tcp_bind_user (v : variant) (s : Z) (e : endpoint) (w : net) : Z * net :=
+  let t := get_tcp w s in
+  if d23_single_bind v && t_open t && Bool.eqb (negb (a_v6 (e_addr e))) (t_is_v4 t) && negb (ep_eqb (t_bound t) ep_none)
+  then (EC_INVALID_ARGUMENT, w) else tcp_bind s e w.
 
 (* receive_from_impl: (error, data, sender, state) *)
 Definition udp_receive_from (cx : ctx) (s : Z) (bufs : list Z) (w : net) : Z * list Z * endpoint * net :=
